@@ -16,7 +16,6 @@ func initRuntime() {
 			runtime.GC()
 			return value.Nil, value.Undefined
 		},
-		DefWithParameters(1),
 	)
 
 }
